@@ -9,6 +9,7 @@ structure GridSt where
   w : List Float := []
   per : List Bool := []
   data : List Float := []
+  counts : List Nat := []
 
 /-- C15 ops on one current grid. -/
 def c15 (g : GridSt) (ln : Nat) (t : List String) : Option (GridSt × List String) :=
@@ -56,6 +57,21 @@ def c15 (g : GridSt) (ln : Nat) (t : List String) : Option (GridSt × List Strin
     | none => some (g, [out ln "ok" (bTok false)])
     | some b => some (g, [out ln "ok" (bTok true), out ln "nx" (isTok b.nx), out ln "lo" (fsTok b.lo), out ln "w" (fsTok b.w),
                           out ln "per" (isTok (b.per.map fun x => if x then 1 else 0)), out ln "data" (fsTok b.data)])
+  | "g.counts" :: r => some ({ g with counts := r.map nOfTok }, [])
+  | "g.rtgrad" :: kind :: opt =>
+    let withCount := !(opt.contains "nocount")
+    let file : Cv.GridIO.GridFile Float := { nx := g.nx, lo := g.lo, w := g.w, per := g.per, mult := g.mult.toNat, data := g.data }
+    let cnt : Option (List Nat) := if withCount then some g.counts else none
+    let back : Option (List Float × List Nat) :=
+      match kind with
+      | "multicol" => Cv.GridIO.gradMulticolRoundTrip file cnt false
+      | "multicoladd" => Cv.GridIO.gradMulticolRoundTrip file cnt true
+      | "raw" | "rawbin" => Cv.GridIO.gradRawRoundTrip file cnt false
+      | _ => Cv.GridIO.gradRawRoundTrip file cnt true
+    match back with
+    | none => some (g, [out ln "ok" (bTok false)])
+    | some (d, c) => some (g, [out ln "ok" (bTok true), out ln "nx" (isTok g.nx), out ln "data" (fsTok d),
+                               out ln "cnt" (isTok (c.map fun (n : Nat) => (n : Int)))])
   | "g.sizes" :: lo :: hi :: w :: _ =>
     let lo := fOfTok lo; let hi := fOfTok hi; let w := fOfTok w
     some (g, [out ln "nx" (iTok (nbinsRound lo hi w)), out ln "hi" (fTok (adjustedUpper lo hi w))])
